@@ -1332,6 +1332,15 @@ func (r *runningStep) startStage(container deployer.Plugin) (bool, int64, error)
 		}
 	}
 
+	// The stop condition (or a close request) may have fired while the input arrived. When both are ready the
+	// select above picks either one, so give the cancellation precedence: a stopped step must not start.
+	select {
+	case <-r.ctx.Done():
+		r.logger.Debugf("step closed before it could start")
+		return true, 0, nil
+	default:
+	}
+
 	verifhook.Gate("plugin.start.beforeReadSchema", "obj", r)
 	inputSchema, err := r.atpClient.ReadSchema()
 	verifhook.Emit("SReadSchema", "obj", r, "err", err)
